@@ -112,15 +112,22 @@ Definition expand_nat (lo hi : list nat) : list nat :=
 
 (* ---------------------------------------------------------------- expand_indices_* *)
 
-(* ravel of the (nd x len) array  nd*ind + arange(nd)[:, newaxis]  in order F / C *)
+(* 2-D integer arrays are lists of rows.  ravel(order="C") / ravel(order="F") of an array
+   with w columns *)
+Definition ravel_c (rows : list (list Z)) : list Z := concat rows.
+Definition ravel_f (w : nat) (rows : list (list Z)) : list Z :=
+  flat_map (fun j => map (fun r => nth j r 0%Z) rows) (seq 0 w).
+
 Definition expand_indices_nd (ind : list Z) (nd : nat) (order_f : bool) : list Z :=
   if nd =? 1 then ind else
-  if order_f then flat_map (fun i => map (fun d => (Z.of_nat nd * i + Z.of_nat d)%Z) (seq 0 nd)) ind
-  else flat_map (fun d => map (fun i => (Z.of_nat nd * i + Z.of_nat d)%Z) ind) (seq 0 nd).
+  (* new_ind = nd * ind + np.arange(nd)[:, np.newaxis]      (shape nd x len(ind)) *)
+  let new_ind := map (fun d => map (fun i => (Z.of_nat nd * i + Z.of_nat d)%Z) ind) (seq 0 nd) in
+  if order_f then ravel_f (length ind) new_ind else ravel_c new_ind.
 
-(* tile(x, (n,1)) + increment * arange(n)[:, newaxis], raveled in order F *)
 Definition expand_indices_add_increment (x : list Z) (n : nat) (incr : Z) : list Z :=
-  flat_map (fun v => map (fun k => (v + incr * Z.of_nat k)%Z) (seq 0 n)) x.
+  (* np.tile(x, (n, 1)) + increment * np.array([np.arange(n)]).transpose()   (shape n x len(x)) *)
+  let ind_incr := map (fun k => map (fun v => (v + incr * Z.of_nat k)%Z) x) (seq 0 n) in
+  ravel_f (length x) ind_incr.
 
 (* ---------------------------------------------------------------- rlencode / rldecode *)
 
@@ -216,6 +223,117 @@ Definition stack_diag (A B : csr) : csr :=
      indices := indices A ++ map (fun j => j + nmin A) (indices B);
      data := data A ++ data B |}.
 
+(* ---------------------------------------------------------------- merge_matrices *)
+
+(* np.argsort (stable insertion sort of (key, position) pairs) *)
+Fixpoint ins_key (p : nat * nat) (l : list (nat * nat)) : list (nat * nat) :=
+  match l with
+  | [] => [p]
+  | q :: r => if fst p <=? fst q then p :: q :: r else q :: ins_key p r
+  end.
+Definition sort_keys (l : list (nat * nat)) : list (nat * nat) := fold_right ins_key [] l.
+Definition argsort (l : list nat) : list nat := map snd (sort_keys (combine l (seq 0 (length l)))).
+
+(* np.unique(l).size == l.size *)
+Fixpoint nodupb (l : list nat) : bool :=
+  match l with [] => true | x :: r => negb (existsb (Nat.eqb x) r) && nodupb r end.
+
+Fixpoint map2 {A B C} (f : A -> B -> C) (a : list A) (b : list B) : list C :=
+  match a, b with x :: a', y :: b' => f x y :: map2 f a' b' | _, _ => [] end.
+
+(* np.insert(arr, pos, vals): every value goes in front of the element that had position
+   pos in arr (pos = len(arr): at the end); values with equal positions keep their order *)
+Fixpoint insert_at {E} (p : nat) (arr : list E) (pvs : list (nat * E)) : list E :=
+  match arr with
+  | [] => map snd (filter (fun pv => p <=? fst pv) pvs)
+  | x :: r => map snd (filter (fun pv => fst pv =? p) pvs) ++ x :: insert_at (S p) r pvs
+  end.
+Definition np_insert {E} (arr : list E) (pos : list nat) (vals : list E) : list E :=
+  insert_at 0 arr (combine pos vals).
+
+(* np.diff *)
+Fixpoint diffN (l : list nat) : list nat :=
+  match l with a :: ((b :: _) as r) => (b - a) :: diffN r | _ => [] end.
+
+(* the body of merge_matrices once the lines are in increasing order *)
+Definition merge_sorted (A B1 : csr) (lines1 : list nat) : csr :=
+  let ip := indptr A in
+  let lo := gather 0 ip lines1 in
+  let hi := gather 0 ip (map S lines1) in
+  let ind_ix := expand_nat lo hi in
+  (* num_rem[lines + 1] = indptr[lines + 1] - indptr[lines]; cumsum; indptr - num_rem *)
+  let num_rem := cumsumN 0 (scatter (repeat 0 (length ip)) (map S lines1) (map2 Nat.sub hi lo)) in
+  let ip1 := map2 Nat.sub ip num_rem in
+  (* keep[ind_ix] = False; indices[keep]; data[keep] *)
+  let keep := scatter (repeat true (length (data A))) ind_ix (repeat false (length ind_ix)) in
+  let indices1 := mask keep (indices A) in
+  let data1 := mask keep (data A) in
+  (* num_added[lines + 1] = diff(b_indptr); cumsum *)
+  let blens := diffN (indptr B1) in
+  let num_added := cumsumN 0 (scatter (repeat 0 (length ip1)) (map S lines1) blens) in
+  (* indPos = np.repeat(indptr[lines], diff(b_indptr)) *)
+  let ind_pos := flat_map (fun pc => repeat (fst pc) (snd pc)) (combine (gather 0 ip1 lines1) blens) in
+  {| nmaj := nmaj A; nmin := nmin A;
+     indptr := map2 Nat.add ip1 num_added;
+     indices := np_insert indices1 ind_pos (indices B1);
+     data := np_insert data1 ind_pos (data B1) |}.
+
+(* A[lines, :] = B (csr) / A[:, lines] = B (csc), in place; the code after
+   `fix: merge_matrices handles lines to replace that are not sorted` *)
+Definition merge_matrices (A B : csr) (lines : list nat) : res csr :=
+  if negb (nmin A =? nmin B) then Err ValueErr else
+  if negb (length lines =? nmaj B) then Err ValueErr else
+  if negb (nodupb lines) then Err ValueErr else
+  (* if np.any(np.diff(lines) < 0): sort the lines and the lines of B with them *)
+  let sorted := monotone lines in
+  let sort_ind := argsort lines in
+  let lines1 := if sorted then lines else gather 0 lines sort_ind in
+  match (if sorted then Ok B else slice_sparse_matrix B sort_ind) with
+  | Err e => Err e
+  | Ok B1 => if negb (lines_ok A lines1) then Err IndexErr else Ok (merge_sorted A B1 lines1)
+  end.
+
+(* ---------------------------------------------------------------- block_diag_index *)
+
+(* i[a : a + len(vals)] = vals   (the code's slices have exactly the length of the value) *)
+Definition assign_slice {E} (base : list E) (a : nat) (vals : list E) : list E :=
+  firstn a base ++ vals ++ skipn (a + length vals) base.
+
+(* block_diag_index(m): column indices of the block diagonal csr matrix with square blocks *)
+Definition block_diag_index1 (m : list nat) : list nat :=
+  let n := 0 :: m in                                        (* np.insert(m, 0, 0) *)
+  let idx_blocks := cumsumN 0 n in
+  let idx_inv_blocks := cumsumN 0 (map (fun s => s * s) n) in
+  let i0 := repeat 0 (last idx_inv_blocks 0) in
+  fold_left (fun i ib =>
+               let i_range := seq (nth ib idx_blocks 0) (nth (S ib) idx_blocks 0 - nth ib idx_blocks 0) in
+               (* i_val = n[ib+1] copies of i_range; i[idx_inv[ib] : idx_inv[ib+1]] = i_val.flat *)
+               assign_slice i (nth ib idx_inv_blocks 0) (concat (repeat i_range (nth (S ib) n 0))))
+            (seq 0 (length n - 1)) i0.
+
+(* block_diag_index(m, n): row and column indices of all entries of rectangular blocks *)
+Definition block_diag_index2 (m n : list Z) : res (list Z * list Z) :=
+  let pos := cumsum (0%Z :: m) in
+  let p1 := removelast pos in
+  let p2 := map (fun x => (x - 1)%Z) (tl pos) in
+  match rldecode p1 n, rldecode p2 n with
+  | Ok p1_full, Ok p2_full =>
+      match expand_index_pointers p1_full (map (fun x => (x + 1)%Z) p2_full) with
+      | Ok i =>
+          let sumn := map Z.of_nat (seq 0 (Z.to_nat (sumZ n))) in
+          match rldecode m n with
+          | Ok m_n_full => match rldecode sumn m_n_full with
+                           | Ok j => Ok (i, j)
+                           | Err e => Err e
+                           end
+          | Err e => Err e
+          end
+      | Err e => Err e
+      end
+  | Err e, _ => Err e
+  | _, Err e => Err e
+  end.
+
 (* ---------------------------------------------------------------- tie helpers *)
 
 Definition eqb_lz := eqb_listZ.
@@ -267,3 +385,10 @@ Definition agree_slice_indices (m r : res (list nat * list nat)) : bool :=
 (* the dense reference of a result, compared with numpy's toarray() of the real result *)
 Definition agree_dense (m : res csr) (d : list (list Z)) : bool :=
   match m with Ok a => eqb_llz (to_dense a) d | Err _ => false end.
+
+Definition agree_lzlz (m r : res (list Z * list Z)) : bool :=
+  match m, r with
+  | Ok (a, b), Ok (c, d) => eqb_listZ a c && eqb_listZ b d
+  | Err a, Err b => eqb_err a b
+  | _, _ => false
+  end.
